@@ -2,8 +2,8 @@ package main
 
 import (
 	"fmt"
-	"os"
 	"go/types"
+	"os"
 
 	"golang.org/x/tools/go/ssa"
 )
